@@ -331,4 +331,169 @@ Proof.
   now rewrite block_with_shift.
 Qed.
 
+(* ================================================================== *)
+(* 2. origin laws                                                       *)
+(* ================================================================== *)
+Notation Bn := (pbin K).
+
+Lemma Bn_gt : forall n k, (n < k)%nat -> Bn n k = 0.
+Proof.
+  induction n as [|n IH]; intros k Hk; destruct k as [|k']; try lia.
+  - reflexivity.
+  - cbn [pbin]. rewrite (IH k') by lia. rewrite (IH (S k')) by lia. ring.
+Qed.
+
+Lemma sumn_peel n f : sumn (S n) f = f 0%nat + sumn n (fun m => f (S m)).
+Proof.
+  induction n as [|n IH]; [cbn [Tables.sumn]; ring|].
+  change (sumn (S (S n)) f) with (sumn (S n) f + f (S n)). rewrite IH.
+  cbn [Tables.sumn]. ring.
+Qed.
+Lemma sumn_plus n f g : sumn n (fun k => f k + g k) = sumn n f + sumn n g.
+Proof. induction n as [|n IH]; cbn [Tables.sumn]; [ring|]. rewrite IH. ring. Qed.
+Lemma sumn_mult n c f : sumn n (fun k => c * f k) = c * sumn n f.
+Proof. induction n as [|n IH]; cbn [Tables.sumn]; [ring|]. rewrite IH. ring. Qed.
+
+(* sum_{m <= k} binom(k, m) t^(k-m) f(m) *)
+Definition bsum (t : F) (k : nat) (f : nat -> F) : F :=
+  sumn (S k) (fun m => Bn k m * fpow t (k - m) * f m).
+
+Lemma bsum_0 t f : bsum t 0 f = f 0%nat.
+Proof. unfold bsum. cbn [Tables.sumn pbin Nat.sub FNum.fpow]. ring. Qed.
+
+(* Pascal's rule under the sum *)
+Lemma bsum_S t k f : bsum t (S k) f = t * bsum t k f + bsum t k (fun m => f (S m)).
+Proof.
+  unfold bsum. rewrite (sumn_peel (S k)).
+  rewrite (Tables.sumn_ext 0 (fadd K) (S k)
+             (fun m => Bn (S k) (S m) * fpow t (S k - S m) * f (S m))
+             (fun m => Bn k m * fpow t (k - m) * f (S m) + Bn k (S m) * fpow t (k - m) * f (S m))).
+  2:{ intros i _. cbn [pbin Nat.sub]. ring. }
+  rewrite sumn_plus.
+  change (sumn (S k) (fun m => Bn k (S m) * fpow t (k - m) * f (S m)))
+    with (sumn k (fun m => Bn k (S m) * fpow t (k - m) * f (S m))
+          + Bn k (S k) * fpow t (k - k) * f (S k)).
+  rewrite (Bn_gt k (S k)) by lia.
+  rewrite (sumn_peel k (fun m => Bn k m * fpow t (k - m) * f m)).
+  rewrite (Tables.sumn_ext 0 (fadd K) k
+             (fun m => Bn k (S m) * fpow t (k - m) * f (S m))
+             (fun m => t * (Bn k (S m) * fpow t (k - S m) * f (S m)))).
+  2:{ intros i Hi. replace (k - i)%nat with (S (k - S i)) by lia. cbn [FNum.fpow]. ring. }
+  rewrite sumn_mult. cbn [pbin Nat.sub FNum.fpow]. rewrite Nat.sub_0_r.
+  destruct k; cbn [pbin]; ring.
+Qed.
+
+Lemma bsum_ext t k f g : (forall m, (m <= k)%nat -> f m = g m) -> bsum t k f = bsum t k g.
+Proof. intros H. unfold bsum. apply Tables.sumn_ext. intros i Hi. rewrite H by lia. reflexivity. Qed.
+Lemma bsum_plus t k f g : bsum t k (fun m => f m + g m) = bsum t k f + bsum t k g.
+Proof. unfold bsum. rewrite <- sumn_plus. apply Tables.sumn_ext. intros. ring. Qed.
+Lemma bsum_mult t k c f : bsum t k (fun m => c * f m) = c * bsum t k f.
+Proof. unfold bsum. rewrite <- sumn_mult. apply Tables.sumn_ext. intros. ring. Qed.
+
+(* moments about a displaced origin: (y + c + t)^k = sum_m binom(k,m) t^(k-m) (y + c)^m under E,
+   whatever the other two linear factors and the auxiliary index are *)
+Theorem S3_origin_shift v a b c t : forall k n i j,
+  S3 K v a b (c + t) n k i j = bsum t k (fun m => S3 K v a b c n m i j).
+Proof.
+  induction k as [|k IH]; intros n i j.
+  - rewrite bsum_0. reflexivity.
+  - rewrite (S3_Sk K Kf), (IH n), (IH (S n)), bsum_S.
+    rewrite (bsum_ext t k (fun m => S3 K v a b c n (S m) i j)
+               (fun m => c * S3 K v a b c n m i j + S3 K v a b c (S n) m i j))
+      by (intros m _; apply (S3_Sk K Kf)).
+    rewrite bsum_plus, bsum_mult. ring.
+Qed.
+
+Theorem T3_origin_shift v a b c t k i j :
+  T3 K v a b (c + t) k i j = bsum t k (fun m => T3 K v a b c m i j).
+Proof. apply S3_origin_shift. Qed.
+
+(* the same law for the table the code builds: moving the moment origin from Cx to Cx - t *)
+Theorem table_origin_shift Ax Bx Cx alpha beta t la lb km k j i :
+  psum K alpha beta <> 0 -> 1 + 1 <> 0 -> (k <= km)%nat -> (j <= lb)%nat -> (i <= la)%nat ->
+  nth3 K k j i (table K Ax Bx (Cx - t) alpha beta la lb km)
+  = bsum t k (fun m => nth3 K m j i (table K Ax Bx Cx alpha beta la lb km)).
+Proof.
+  intros Hp H2 Hk Hj Hi.
+  rewrite (table_correct K Kf) by assumption.
+  rewrite (bsum_ext t k _ (fun m => base K Ax Bx alpha beta *
+      T3 K (1 / twop K alpha beta) (PA K Ax Bx alpha beta) (PB K Ax Bx alpha beta)
+         (PC K Ax Bx Cx alpha beta) m i j)).
+  2:{ intros m Hm. apply (table_correct K Kf); try assumption. lia. }
+  rewrite bsum_mult. f_equal.
+  replace (PC K Ax Bx (Cx - t) alpha beta) with (PC K Ax Bx Cx alpha beta + t)
+    by (unfold PC; ring).
+  apply T3_origin_shift.
+Qed.
+
+(* ---- angular momentum about a displaced origin: L' = L - d x p ----
+   The angular-momentum model takes its first moments about the coordinate origin.  Moving the whole
+   system by t (equivalently: moving the origin by d = -t) leaves the derivative tables unchanged and
+   changes the first-moment tables by t times the overlap tables; the primitive products the block
+   model contracts therefore change by (t x p), p the primitive products of the momentum model. *)
+Section AngmomAxis.
+Variables (Ax Bx alpha beta t : F) (la lb : nat).
+Hypothesis Hp : psum K alpha beta <> 0.
+Hypothesis H2 : 1 + 1 <> 0.
+
+Lemma mtable_shift_0 j i : (j <= lb)%nat -> (i <= la)%nat ->
+  nth3 K 0 j i (table K (Ax + t) (Bx + t) 0 alpha beta la lb 1)
+  = nth3 K 0 j i (table K Ax Bx 0 alpha beta la lb 1).
+Proof.
+  intros Hj Hi.
+  replace 0 with ((0 - t) + t) at 1 by ring. rewrite table_shift by exact Hp.
+  rewrite table_origin_shift by (assumption || lia). apply bsum_0.
+Qed.
+
+Lemma mtable_shift_1 j i : (j <= lb)%nat -> (i <= la)%nat ->
+  nth3 K 1 j i (table K (Ax + t) (Bx + t) 0 alpha beta la lb 1)
+  = nth3 K 1 j i (table K Ax Bx 0 alpha beta la lb 1)
+    + t * nth3 K 0 j i (table K Ax Bx 0 alpha beta la lb 1).
+Proof.
+  intros Hj Hi.
+  replace 0 with ((0 - t) + t) at 1 by ring. rewrite table_shift by exact Hp.
+  rewrite table_origin_shift by (assumption || lia).
+  unfold bsum. cbn [Tables.sumn pbin Nat.sub FNum.fpow]. ring.
+Qed.
+
+(* the order-0 plane of the derivative table is the overlap plane of the moment table *)
+Lemma dtable_order0 j i : (j <= lb)%nat -> (i <= la)%nat ->
+  nth3 K 0 j i (dtable K Ax Bx alpha beta la lb 1)
+  = nth3 K 0 j i (table K Ax Bx 0 alpha beta la lb 1).
+Proof.
+  intros Hj Hi. rewrite (diffop_slice_valid K Kf) by (assumption || lia).
+  rewrite (table_correct K Kf) by (assumption || lia). reflexivity.
+Qed.
+End AngmomAxis.
+
+Definition cross3 (u w : F * F * F) : list F :=
+  let '(ux, uy, uz) := u in let '(wx, wy, wz) := w in
+  [uy * wz - uz * wy; uz * wx - ux * wz; ux * wy - uy * wx].
+
+Theorem angmom_prim_shift Ax Ay Az Bx By Bz alpha beta tx ty tz la lb (ca cb : comp) :
+  (forall x, fapx K x = x) ->
+  alpha + beta <> 0 -> 1 + 1 <> 0 ->
+  (fst (fst ca) <= la /\ snd (fst ca) <= la /\ snd ca <= la)%nat ->
+  (fst (fst cb) <= lb /\ snd (fst cb) <= lb /\ snd cb <= lb)%nat ->
+  let d := (dtable K Ax Bx alpha beta la lb 1, dtable K Ay By alpha beta la lb 1,
+            dtable K Az Bz alpha beta la lb 1) in
+  let m0 := (table K Ax Bx 0 alpha beta la lb 1, table K Ay By 0 alpha beta la lb 1,
+             table K Az Bz 0 alpha beta la lb 1) in
+  let mt := (table K (Ax + tx) (Bx + tx) 0 alpha beta la lb 1,
+             table K (Ay + ty) (By + ty) 0 alpha beta la lb 1,
+             table K (Az + tz) (Bz + tz) 0 alpha beta la lb 1) in
+  let p := (prim3 K d (1, 0, 0)%nat ca cb, prim3 K d (0, 1, 0)%nat ca cb, prim3 K d (0, 0, 1)%nat ca cb) in
+  angmom_prim K d mt ca cb
+  = map (fun '(l, x) => l + x) (combine (angmom_prim K d m0 ca cb) (cross3 (tx, ty, tz) p)).
+Proof.
+  intros Hapx Hp H2 Ha Hb.
+  destruct ca as [[ax ay] az]. destruct cb as [[bx by_] bz]. cbn [fst snd] in Ha, Hb.
+  destruct Ha as (Hax & Hay & Haz). destruct Hb as (Hbx & Hby & Hbz).
+  cbv zeta. unfold angmom_prim, prim3, cross3. cbn [map combine].
+  rewrite !Hapx.
+  rewrite !mtable_shift_0, !mtable_shift_1 by assumption.
+  rewrite !dtable_order0 by assumption.
+  f_equal; [ring|]. f_equal; [ring|]. f_equal. ring.
+Qed.
+
 End Rigid.
